@@ -47,6 +47,20 @@ func genConcurrent(r *Rand, n int, o histOpts, limit int) *Case {
 		oo.prefix = fmt.Sprintf("c%d", i)
 		genHistory(r, c, oo)
 	}
+	if r.Chance(1, 3) {
+		// a twin: a second client sends exactly what one of the sessions sends, so
+		// the two run the same statements - the same handler values (column
+		// descriptions, programs) are in use on two connections at once
+		first := len(c.Conns) - n
+		tw := c.Conns[first+r.Intn(n)]
+		tw.Cuts = genCuts(r)
+		c.Conns = append(c.Conns, tw)
+	}
+	if r.Chance(1, 5) {
+		// peers whose remote addresses print alike (unix-domain socket, in-memory
+		// listener, local proxy)
+		c.Server.SameAddr = true
+	}
 	// every read is a schedule decision: keep one-byte segmentation for short
 	// sessions only
 	for i := range c.Conns {
@@ -296,7 +310,7 @@ func genC15Cancel(r *Rand) *Case {
 func init() {
 	register(&Prop{
 		ID: "C15", Level: "exploration", QuickS: 30, ThoroughS: 480, Race: true,
-		Rule: "seeded sets of 2-5 sessions drawn from the generators of C05-C09/C13 (simple and extended queries, COPY, failing handlers, Close) that deliberately use the same statement/portal names, different users and different Go row types for the same OIDs; each session is first served alone on a fresh server (E1), then all together on one server under 4 (quick) / 8 (thorough) seeded schedules (uniform, PCT depth 1-3; schedule points at every transport operation, callback entry, row write and spliced sync operation, so handler executions interleave at row granularity and one connection may be starved until the others are done); oracle (a): per connection the canonical transcript and callback trace equal the solo ones; oracle (b): the -race shard with the HB-transparent scheduler reports nothing (a report is attributed to the case and confirmed by replaying it alone in a fresh -race process); a quarter of the sets are preceded by a probe connection (EOF, junk, HTTP request or truncated startup packet); a tenth of the cases are 2-3 clients that upgrade to TLS at the same time on a fresh server and run a short session each (transcripts compared with the plaintext solo runs; the -race shard covers the upgrade path); variants: login-storm (5-8 wrong-password connections for one user name, then the right one), session-context-ends (one session's middleware-derived context is cancelled and the client goes on sending beside ordinary sessions); non-trivial = at least two connections; distinct = distinct case content hashes; distinct_interleavings = distinct (task, point) decision sequences",
+		Rule: "seeded sets of 2-5 sessions drawn from the generators of C05-C09/C13 (simple and extended queries, COPY, failing handlers, Close) that deliberately use the same statement/portal names, different users and different Go row types for the same OIDs; each session is first served alone on a fresh server (E1), then all together on one server under 4 (quick) / 8 (thorough) seeded schedules (uniform, PCT depth 1-3; schedule points at every transport operation, callback entry, row write and spliced sync operation, so handler executions interleave at row granularity and one connection may be starved until the others are done); oracle (a): per connection the canonical transcript and callback trace equal the solo ones; oracle (b): the -race shard with the HB-transparent scheduler reports nothing (a report is attributed to the case and confirmed by replaying it alone in a fresh -race process); a third of the sets contain a twin (a second client sending exactly what one of the sessions sends: the same statements, and with them the same handler-owned column descriptions, are in use on two connections at once), in a fifth every peer's remote address prints the same text (unix-domain socket, in-memory listener); a quarter of the sets are preceded by a probe connection (EOF, junk, HTTP request or truncated startup packet); a tenth of the cases are 2-3 clients that upgrade to TLS at the same time on a fresh server and run a short session each (transcripts compared with the plaintext solo runs; the -race shard covers the upgrade path); variants: login-storm (5-8 wrong-password connections for one user name, then the right one), session-context-ends (one session's middleware-derived context is cancelled and the client goes on sending beside ordinary sessions); non-trivial = at least two connections; distinct = distinct case content hashes; distinct_interleavings = distinct (task, point) decision sequences",
 		Components: []string{
 			"real: everything on the serving path (accept loop, per-connection goroutines, handshake, command loop, caches, type maps, writers, COPY readers, pgx codecs)",
 			"stub: listener/connections, handler programs; scheduler: harness/kernel.go serialises and chooses goroutines; race oracle: Go race detector of the -race worker, kernel synchronisation hidden via runtime.RaceDisable and //go:norace",
